@@ -147,7 +147,7 @@ impl Scenario for C11Threads {
         true
     }
     fn cpu_budget_secs(&self) -> u64 {
-        60
+        600
     }
 
     fn plan(&self, seed: u64, idx: u64, _tier: Tier, env: &Env) -> Value {
@@ -190,11 +190,14 @@ impl Scenario for C11Threads {
             }
         }
         // ---- threads and histories
-        let threads = *w.pick(&[1usize, 1, 2, 2, 2, 3, 3, 4, 4, 6, 8, 16]);
+        // a very large input (the 886 KB X.680 character module: ~14 000 definitions, three yield
+        // points each) takes part in small runs only, so that a run stays far below the CPU budget
+        let heavy = inputs.iter().any(|i| matches!(i, Input::Corpus(p) if std::fs::metadata(p).map(|m| m.len()).unwrap_or(0) > 300_000));
+        let threads = if heavy { *w.pick(&[1usize, 2]) } else { *w.pick(&[1usize, 1, 2, 2, 2, 3, 3, 4, 4, 6, 8, 16]) };
         let backends: Vec<BackendSel> = (0..2).map(|_| BackendSel::random(&mut w)).collect();
         let mut ops: Vec<Vec<Op>> = vec![];
         for _ in 0..threads {
-            let n = if threads > 6 { 1 + w.below(2) } else { 1 + w.below(5) };
+            let n = if heavy { 1 } else if threads > 6 { 1 + w.below(2) } else { 1 + w.below(5) };
             let mut h = vec![];
             for _ in 0..n {
                 let input = w.below(inputs.len());
